@@ -567,6 +567,7 @@ func (e *env) lifecycle(name string, arg int) string {
 		e.w.WaitUntilFinished()
 	case "CtxCancel":
 		if e.cancel != nil {
+			vt.Mark("cancel", nil, "")
 			e.cancel()
 		}
 	}
